@@ -231,6 +231,23 @@ def job_factories(j, seed):
         b1.add({'a.y': 2})
         b1.name = 'other'
         chk('Block.copy: independent content list and name', len(b0._content) == 1 and b0.name == 'n')
+    elif which == 'tof':
+        # container arguments: the list of choppers handed to FrameSequence.chop is the caller's (its order may carry meaning,
+        # e.g. a parallel list of names) and stays as it was, whatever order the choppers are applied in
+        import sys
+        cc = loader.load('tof.chopper_cascade')
+        sc_ = sys.modules['scipp']
+        mk = lambda d, o, c: cc.Chopper(distance=sc_.scalar(d, unit='m'), time_open=sc_.array(dims=['slit'], values=[o], unit='s'), time_close=sc_.array(dims=['slit'], values=[c], unit='s'))  # noqa: E731
+        far, near, mid = mk(2.5, 0.002, 0.006), mk(1.5, 0.001, 0.004), mk(2.0, 0.0015, 0.005)
+        for order in ([far, near], [far, near, mid], [near, far]):
+            lst = list(order)
+            seq = cc.FrameSequence.from_source_pulse(sc_.scalar(0.0, unit='s'), sc_.scalar(0.003, unit='s'), sc_.scalar(1.0, unit='angstrom'), sc_.scalar(10.0, unit='angstrom'))
+            C.CTX.concrete_env = {'h_planck': 6.62607015e-34, 'm_neutron': 1.67492749804e-27}  # what is clipped is C11's subject: numbers here
+            try:
+                seq.chop(lst)
+            finally:
+                C.CTX.concrete_env = None
+            chk(f'FrameSequence.chop leaves the caller\'s list of {len(order)} choppers in its order', len(lst) == len(order) and all(a_ is b_ for a_, b_ in zip(lst, order, strict=True)))
     elif which == 'atoms':
         atoms = loader.load('atoms')
         a = atoms.Atom.for_isotope('3He')
@@ -326,7 +343,7 @@ def run(chk):
         fl.append(getattr(loader.load(mod), fn))
     chk.functions = loader.describe(fl)
     run_jobs(chk, job_args, list(range(len(ents))))
-    run_jobs(chk, job_factories, ['graphs', 'models', 'cif', 'atoms'])
+    run_jobs(chk, job_factories, ['graphs', 'models', 'cif', 'atoms', 'tof'])
     run_jobs(chk, job_absorption, [('any-axis', 5)] if chk.tier == 'quick' else [('any-axis', 16), ('unit-axis', 16)])
     chk.bounds = {'entry points': len(ents), 'aliasing': 'phase 1 records every copy=False conversion of an argument buffer; phase 2 re-runs with the argument already in that unit/dtype (single targets and all at once)',
                   'factories': 'one call-mutate-call step from arbitrary earlier history (inductive); containers are plain dict/list/set so aliasing is concrete'}
@@ -459,6 +476,16 @@ def replay_real(case):
                 bad.append(f'a second save of the same builder writes another document ({len(f1.getvalue().splitlines())} vs {len(f3.getvalue().splitlines())} lines)')
             if 'one-off comment' not in f2.getvalue():
                 bad.append('comment= of save_cif missing from the file it was given for')
+        elif which == 'tof':
+            from scippneutron.tof import chopper_cascade as cc
+            mk = lambda d, o, c: cc.Chopper(distance=sc.scalar(d, unit='m'), time_open=sc.array(dims=['slit'], values=[o], unit='s'), time_close=sc.array(dims=['slit'], values=[c], unit='s'))  # noqa: E731
+            far, near, mid = mk(2.5, 0.002, 0.006), mk(1.5, 0.001, 0.004), mk(2.0, 0.0015, 0.005)
+            for order in ([far, near], [far, near, mid]):
+                lst = list(order)
+                seq = cc.FrameSequence.from_source_pulse(sc.scalar(0.0, unit='s'), sc.scalar(0.003, unit='s'), sc.scalar(1.0, unit='angstrom'), sc.scalar(10.0, unit='angstrom'))
+                seq.chop(lst)
+                if len(lst) != len(order) or any(a_ is not b_ for a_, b_ in zip(lst, order, strict=True)):
+                    bad.append(f'FrameSequence.chop reordered the caller\'s list of choppers: distances {[float(c_.distance.value) for c_ in order]} -> {[float(c_.distance.value) for c_ in lst]}')
         elif which == 'models':
             from scippneutron.peaks import model as M
 
